@@ -183,6 +183,19 @@ func BinInt(op token.Token, x, y *Int) (res *Int, wrapped bool) {
 			}
 		}
 		r := newInt(w, signed, bits, lo, hi, d)
+		// offset of another number (only when no wrap-around is possible)
+		if c, isc := y.Const(); isc && !wrapped && !x.IsConst() {
+			base, off := x.VID, int64(0)
+			if x.RelVID != 0 {
+				base, off = x.RelVID, x.RelOff
+			}
+			r.RelVID = base
+			if op == token.ADD {
+				r.RelOff = off + c
+			} else {
+				r.RelOff = off - c
+			}
+		}
 		// affine form
 		if c, isc := y.Const(); isc && x.HasBase {
 			r.HasBase, r.Base = true, x.Base
@@ -459,6 +472,7 @@ func ConvertInt(x *Int, w int, signed bool) (res *Int, truncated bool) {
 		r.LtLen, r.IsLen = x.LtLen, x.IsLen
 		r.VID = x.VID // same number: refinements of one apply to the other
 		r.From = x.From
+		r.RelVID, r.RelOff = x.RelVID, x.RelOff
 	}
 	if x.HasBase && (w <= x.W || !truncated) {
 		// (base+off) mod 2^W truncated to fewer bits is still base+off mod 2^w;
@@ -516,6 +530,21 @@ func CmpInt(op token.Token, x, y *Int) *Bool {
 		// same value identity
 		if x.VID == y.VID {
 			return decide(eq)
+		}
+		// a value the number is known not to be
+		if cy, ok := y.Const(); ok && y.allBitsConst() {
+			for _, n := range x.Not {
+				if n == cy {
+					return decide(!eq)
+				}
+			}
+		}
+		if cx, ok := x.Const(); ok && x.allBitsConst() {
+			for _, n := range y.Not {
+				if n == cx {
+					return decide(!eq)
+				}
+			}
 		}
 		// known-bit disagreement
 		for i := 0; i < x.W && i < y.W; i++ {
@@ -608,21 +637,46 @@ func CmpInt(op token.Token, x, y *Int) *Bool {
 
 // RefineInt narrows x under the assumption (x op c) == outcome.
 func RefineInt(x *Int, op string, c int64, outcome bool) *Int {
+	r, _ := RefineIntFeasible(x, op, c, outcome)
+	return r
+}
+
+// RefineIntFeasible is RefineInt that also reports whether the assumption is
+// satisfiable for the abstract value (false: the branch cannot be taken).
+// Values excluded from the middle of a small interval are remembered (Not), so
+// that a chain of equality tests over a small range is decided exactly.
+func RefineIntFeasible(x *Int, op string, c int64, outcome bool) (*Int, bool) {
 	if !outcome {
 		neg := map[string]string{"==": "!=", "!=": "==", "<": ">=", "<=": ">", ">": "<=", ">=": "<"}
 		op = neg[op]
 	}
+	excluded := func(v int64) bool {
+		for _, n := range x.Not {
+			if n == v {
+				return true
+			}
+		}
+		return false
+	}
 	r := x.clone()
 	switch op {
 	case "==":
-		if c >= r.Lo && c <= r.Hi {
-			r.Lo, r.Hi = c, c
+		if c < r.Lo || c > r.Hi || excluded(c) {
+			return x, false
 		}
+		r.Lo, r.Hi = c, c
+		r.Not = nil
 	case "!=":
-		if r.Lo == c && r.Lo < r.Hi {
+		if r.Lo == c && r.Hi == c {
+			return x, false
+		}
+		if c > r.Lo && c < r.Hi && r.Hi-r.Lo <= 64 && !excluded(c) {
+			r.Not = append(append([]int64(nil), x.Not...), c)
+		}
+		if r.Lo == c {
 			r.Lo++
 		}
-		if r.Hi == c && r.Lo < r.Hi {
+		if r.Hi == c {
 			r.Hi--
 		}
 	case "<":
@@ -642,11 +696,33 @@ func RefineInt(x *Int, op string, c int64, outcome bool) *Int {
 			r.Lo = c
 		}
 	}
-	if r.Lo > r.Hi {
-		// infeasible; keep original
-		return x
+	// step over excluded end points
+	for changed := true; changed && r.Lo <= r.Hi; {
+		changed = false
+		for _, n := range r.Not {
+			if n == r.Lo {
+				r.Lo++
+				changed = true
+			}
+			if n == r.Hi {
+				r.Hi--
+				changed = true
+			}
+		}
 	}
-	return r.normalize()
+	if r.Lo > r.Hi {
+		return x, false
+	}
+	if len(r.Not) > 0 {
+		var keep []int64
+		for _, n := range r.Not {
+			if n > r.Lo && n < r.Hi {
+				keep = append(keep, n)
+			}
+		}
+		r.Not = keep
+	}
+	return r.normalize(), true
 }
 
 // JoinInt is the least upper bound (per bit equal-or-unknown, interval hull).
@@ -690,6 +766,7 @@ func JoinInt(t, f *Int, gate *Bit, extra Deps) *Int {
 		c := t.clone()
 		c.VID = nextVID()
 		c.From = nil
+		c.Not = nil
 		if !(t.HasBase && f.HasBase && t.Base == f.Base && t.Off == f.Off) {
 			c.HasBase = false
 		}
@@ -702,6 +779,10 @@ func JoinInt(t, f *Int, gate *Bit, extra Deps) *Int {
 	r := &Int{W: t.W, Signed: t.Signed, Bits: bits, Lo: min64(t.Lo, f.Lo), Hi: max64(t.Hi, f.Hi), D: d, VID: nextVID()}
 	if t.LtLen == f.LtLen {
 		r.LtLen = t.LtLen
+	} else if t.LtLen != nil && f.LtLen == nil && f.Lo >= 0 && t.LtLen.MinLenSet && f.Hi < t.LtLen.MinLen {
+		r.LtLen = t.LtLen // the other side is a small constant below every possible length
+	} else if f.LtLen != nil && t.LtLen == nil && t.Lo >= 0 && f.LtLen.MinLenSet && t.Hi < f.LtLen.MinLen {
+		r.LtLen = f.LtLen
 	}
 	if t.IsLen == f.IsLen {
 		r.IsLen = t.IsLen
@@ -768,7 +849,7 @@ func IntLeq(a, b *Int) bool {
 			return false
 		}
 	}
-	if b.LtLen != nil && a.LtLen != b.LtLen {
+	if b.LtLen != nil && a.LtLen != b.LtLen && !(a.LtLen == nil && a.Lo >= 0 && b.LtLen.MinLenSet && a.Hi < b.LtLen.MinLen) {
 		return false
 	}
 	return true
